@@ -35,6 +35,9 @@ MCShapes == {
   \* an InitVar declared BEFORE other init fields: positional arguments must be attributed by the signature
   Sh("S8", << Fd("a", "normal", FALSE, TRUE, "base"), Fd("w", "initvar", FALSE, FALSE, "base"),
               Fd("b", "normal", FALSE, FALSE, "base"), Fd("c", "normal", TRUE, FALSE, "base") >>, TRUE, FALSE, FALSE),
+  \* an aggregate (flattened) field with a default next to regular ones: unset, it is not emitted
+  Sh("S10", << Fd("a", "normal", FALSE, FALSE, "base"), Fd("p", "flat", FALSE, FALSE, "base"),
+               Fd("c", "normal", TRUE, FALSE, "base") >>, TRUE, FALSE, FALSE),
   ShGeneric("S9", << Fd("a", "normal", FALSE, FALSE, "base"), Fd("g", "normal", FALSE, FALSE, "base"),
                      Fd("c", "normal", TRUE, FALSE, "base") >>) }
 
